@@ -533,7 +533,7 @@ theorem extLoop_pending_or_invalid_or_valid (dbOk : Bool) (ch : Ch) (digest : St
             · exact storeError_pending_or_invalid _ _ _ _ _ hp
             · rename_i h1 _ _ h2 h3 h4
               rw [store_status]; cases dbOk <;> simp [hp]
-              simp [h1, h2, h3, h4, store_status, hp] at hv
+              simp [h1, h2, h3, h4, store_status] at hv
 
 /-- every other dial result leaves the challenge pending (connection problems, alerts other than
     no_application_protocol) or makes it invalid -/
@@ -706,28 +706,28 @@ theorem target_from_identifier (h : Hash) (cfg : Cfg) (dbOk : Bool) (ch : Ch) (w
   simp only [hp, ne_eq, not_true_eq_false, if_false] at hv
   rcases ht with ht | ht | ht
   · rw [ht] at hv ⊢
-    cases w <;> simp only at hv <;> try (exact absurd hv (by simp))
-    rename_i r
-    injection hv with hv; subst hv
-    rw [http01_target]; rfl
+    cases w with
+    | http r => simp only at hv; injection hv with hv; subst hv; rw [http01_target]; rfl
+    | _ => simp at hv
   · rw [ht] at hv ⊢
-    cases w <;> simp only at hv <;> try (exact absurd hv (by simp))
-    rename_i r
-    injection hv with hv; subst hv
-    rw [dns01_target]; rfl
+    cases w with
+    | txt r => simp only at hv; injection hv with hv; subst hv; rw [dns01_target]; rfl
+    | _ => simp at hv
   · rw [ht] at hv ⊢
-    cases w <;> simp only at hv <;> try (exact absurd hv (by simp))
-    rename_i r
-    cases hr : tlsalpn01Validate h cfg dbOk ch r with
-    | crash => simp [hr] at hv
-    | val o' =>
-      simp only [hr] at hv
-      injection hv with hv; subst hv
-      cases hsn : serverName ch.value ch.ip with
-      | crash => unfold tlsalpn01Validate at hr; simp [hsn, bind] at hr
-      | val sni =>
-        rw [tlsalpn01_target h cfg dbOk ch r o' sni hsn hr]
-        unfold targetFor; simp only [hsn]; rfl
+    cases w with
+    | tls r =>
+      simp only at hv
+      cases hr : tlsalpn01Validate h cfg dbOk ch r with
+      | crash => simp [hr] at hv
+      | val o' =>
+        simp only [hr] at hv
+        injection hv with hv; subst hv
+        cases hsn : serverName ch.value ch.ip with
+        | crash => unfold tlsalpn01Validate at hr; simp [hsn, bind] at hr
+        | val sni =>
+          rw [tlsalpn01_target h cfg dbOk ch r o' sni hsn hr]
+          unfold targetFor; simp only [hsn]; rfl
+    | _ => simp at hv
 
 /-- the host part: a DNS identifier is contacted under its own name (optionally rooted), an IPv6
     literal in brackets, an IPv4 literal as is — `http01Host` never contains anything but the
@@ -855,5 +855,472 @@ theorem ip_identifier_not_wildcard (raw : Str) (h : (s "*.").isPrefixOf raw = fa
   unfold newAuthorization trimIfWildcard; simp [h]
 
 example : newAuthorization .dns (s "*.example.com") = (s "example.com", true, [.dns01]) := by decide
+
+/-! ## 8. device-attest-01 -/
+
+theorem daBad_not_valid (dbOk : Bool) (ch : Ch) (e : ErrT) (hp : ch.status = .pending) :
+    (daBad dbOk ch e).status ≠ .valid := storeError_not_valid _ _ _ _ _ hp
+
+theorem daFinish_valid (dbOk : Bool) (ch : Ch) (i : DaIn) (hp : ch.status = .pending) :
+    (daFinish dbOk ch i).status = .valid → dbOk = true ∧ (i.fpNonEmpty = true → i.authzDbOk = true) := by
+  unfold daFinish
+  split
+  · intro hv; exact absurd hv (noWrite_not_valid _ _ hp)
+  · rename_i hc
+    simp only
+    rw [store_status]
+    intro hv
+    cases dbOk
+    · simp [hp] at hv
+    · refine ⟨rfl, fun hf => ?_⟩
+      cases ha : i.authzDbOk
+      · exact absurd ⟨hf, by simp [ha]⟩ hc
+      · rfl
+
+theorem x5cCheck_none (e : ErrT) (x : X5c) : x5cCheck e x = none →
+    x.present = true ∧ x.len ≠ 0 ∧ x.leafOk = true ∧ x.restOk = true ∧ x.chainOk = true := by
+  unfold x5cCheck
+  cases x.present <;> cases x.leafOk <;> cases x.restOk <;> cases x.chainOk <;> by_cases hl : x.len = 0 <;> simp [hl]
+
+/-- what a successful `step` attestation proves -/
+theorem doStep_data (ch : Ch) (f : StepFacts) (d : Str) (hd : doStep ch f = .data d) :
+    f.x5c.chainOk = true ∧ f.x5c.leafOk = true ∧
+    (∃ th, ch.thumb = some th ∧ f.verifies (keyAuth ch.token th) = true) ∧
+    (f.key = .ecP256 ∨ f.key = .rsa ∨ f.key = .ed25519) ∧
+    ((f.serial = .absent ∧ d = []) ∨ f.serial = .value d) := by
+  unfold doStep at hd
+  cases hx : x5cCheck .rejectedIdentifier f.x5c with
+  | some r => cases r <;> simp [hx] at hd
+  | none =>
+    obtain ⟨_, _, hl, _, hc⟩ := x5cCheck_none _ _ hx
+    simp only [hx] at hd
+    split at hd; · cases hd
+    split at hd; · cases hd
+    cases hth : ch.thumb with
+    | none => simp [hth] at hd
+    | some th =>
+      simp only [hth] at hd
+      split at hd; · cases hd
+      split at hd; · cases hd
+      split at hd; · cases hd
+      split at hd; · cases hd
+      rename_i hk1 hk2 hv _
+      refine ⟨hc, hl, ⟨th, rfl, by simpa using hv⟩, ?_, ?_⟩
+      · cases hk : f.key <;> simp_all
+      · cases hs : f.serial <;> simp [hs] at hd
+        · exact .inl ⟨rfl, hd⟩
+        · exact .inr (by rw [hd])
+
+/-- the conjunct the property asks for, literally: the attestation chains to a trusted root,
+    binds the key authorization (token *and* account key) and attests the permanent identifier -/
+def DaAccept (h : Hash) (ch : Ch) (i : DaIn) : Prop :=
+  match i.facts with
+  | .step f => f.x5c.chainOk = true ∧ (∃ th, ch.thumb = some th ∧ f.verifies (keyAuth ch.token th) = true) ∧
+      f.serial = .value ch.value
+  | .apple f => f.x5c.chainOk = true ∧ (∃ th, ch.thumb = some th ∧ f.nonce = h.raw (keyAuth ch.token th)) ∧
+      (f.udid = ch.value ∨ f.serial = ch.value)
+  | .tpm f => f.pre = .ok ∧ (∃ th, ch.thumb = some th ∧ f.extraData = h.raw (keyAuth ch.token th)) ∧
+      ch.value ∈ f.permanentIdentifiers
+  | .none => False
+
+/-- what the code as written enforces -/
+def DaAcceptCoded (h : Hash) (ch : Ch) (i : DaIn) : Prop :=
+  match i.format, i.facts with
+  | .step, .step f => f.x5c.chainOk = true ∧ (∃ th, ch.thumb = some th ∧ f.verifies (keyAuth ch.token th) = true) ∧
+      (f.serial = .value ch.value ∨ (f.serial = .absent ∧ ch.value = []))
+  | .apple, .apple f => f.x5c.chainOk = true ∧ (f.nonce = [] ∨ f.nonce = h.raw ch.token) ∧
+      (f.udid = ch.value ∨ f.serial = ch.value)
+  | .tpm, .tpm f => f.pre = .ok ∧ (∃ th, ch.thumb = some th ∧ f.extraData = h.raw (keyAuth ch.token th)) ∧
+      (f.permanentIdentifiers = [] ∨ ch.value ∈ f.permanentIdentifiers)
+  | _, _ => False
+
+theorem daStep_valid (dbOk : Bool) (ch : Ch) (i : DaIn) (f : StepFacts) (o : Outcome) (hp : ch.status = .pending)
+    (ho : daStep dbOk ch i f = .val o) (hv : o.status = .valid) :
+    dbOk = true ∧ f.x5c.chainOk = true ∧ (∃ th, ch.thumb = some th ∧ f.verifies (keyAuth ch.token th) = true) ∧
+      (f.serial = .value ch.value ∨ (f.serial = .absent ∧ ch.value = [])) := by
+  unfold daStep at ho
+  cases hd : doStep ch f with
+  | ise => simp only [hd] at ho; cases ho; exact absurd hv (noWrite_not_valid _ _ hp)
+  | nilErr => simp [hd] at ho
+  | bad e => simp only [hd] at ho; cases ho; exact absurd hv (daBad_not_valid _ _ _ hp)
+  | data d =>
+    simp only [hd] at ho
+    obtain ⟨hc, _, hs, _, hser⟩ := doStep_data ch f d hd
+    split at ho
+    · cases ho; exact absurd hv (daBad_not_valid _ _ _ hp)
+    · rename_i heq
+      have heq : d = ch.value := by simpa using heq
+      cases ho
+      refine ⟨(daFinish_valid _ _ _ hp hv).1, hc, hs, ?_⟩
+      rcases hser with ⟨h1, h2⟩ | h1
+      · exact .inr ⟨h1, by rw [← heq, h2]⟩
+      · exact .inl (by rw [h1, heq])
+
+theorem daApple_valid (h : Hash) (dbOk : Bool) (ch : Ch) (i : DaIn) (f : AppleFacts) (o : Outcome)
+    (hp : ch.status = .pending) (ho : daApple h dbOk ch i f = .val o) (hv : o.status = .valid) :
+    dbOk = true ∧ f.x5c.chainOk = true ∧ (f.nonce = [] ∨ f.nonce = h.raw ch.token) ∧
+      (f.udid = ch.value ∨ f.serial = ch.value) := by
+  unfold daApple doApple at ho
+  cases hx : x5cCheck .badAttestationStatement f.x5c with
+  | some r =>
+    cases r <;> simp only [hx] at ho <;> first
+      | (cases ho; exact absurd hv (noWrite_not_valid _ _ hp))
+      | (cases ho; exact absurd hv (daBad_not_valid _ _ _ hp))
+      | (simp at ho)
+  | none =>
+    obtain ⟨_, _, _, _, hc⟩ := x5cCheck_none _ _ hx
+    simp only [hx] at ho
+    by_cases hf : f.fpOk = true
+    · simp only [hf, Bool.not_true, Bool.false_eq_true, if_false] at ho
+      split at ho
+      · cases ho; exact absurd hv (daBad_not_valid _ _ _ hp)
+      · split at ho
+        · cases ho; exact absurd hv (daBad_not_valid _ _ _ hp)
+        · rename_i hn hid
+          cases ho
+          refine ⟨(daFinish_valid _ _ _ hp hv).1, hc, ?_, ?_⟩
+          · by_cases h0 : f.nonce = []
+            · exact .inl h0
+            · right
+              have : f.nonce.length ≠ 0 := by simpa using h0
+              by_cases h1 : f.nonce = h.raw ch.token
+              · exact h1
+              · exact absurd ⟨this, h1⟩ hn
+          · by_cases h0 : f.udid = ch.value
+            · exact .inl h0
+            · by_cases h1 : f.serial = ch.value
+              · exact .inr h1
+              · exact absurd ⟨h0, h1⟩ hid
+    · have hf' : f.fpOk = false := by cases hx : f.fpOk <;> simp_all
+      simp only [hf', Bool.not_false, if_true] at ho
+      cases ho; exact absurd hv (noWrite_not_valid _ _ hp)
+
+theorem doTpm_data (h : Hash) (ch : Ch) (f : TpmFacts) (p : List Str) (hd : doTpm h ch f = .data p) :
+    f.pre = .ok ∧ (∃ th, ch.thumb = some th ∧ f.extraData = h.raw (keyAuth ch.token th)) ∧
+      p = f.permanentIdentifiers := by
+  unfold doTpm at hd
+  cases hpre : f.pre with
+  | bad => simp [hpre] at hd
+  | noRoots => simp [hpre] at hd
+  | ok =>
+    simp only [hpre] at hd
+    cases hth : ch.thumb with
+    | none => simp [hth] at hd
+    | some th =>
+      simp only [hth] at hd
+      split at hd; · cases hd
+      split at hd; · cases hd
+      split at hd; · cases hd
+      rename_i hx _ _
+      injection hd with hd
+      have hx' : h.raw (keyAuth ch.token th) = f.extraData := by simpa using hx
+      exact ⟨rfl, ⟨th, rfl, hx'.symm⟩, hd.symm⟩
+
+theorem daTpm_valid (h : Hash) (dbOk : Bool) (ch : Ch) (i : DaIn) (f : TpmFacts) (o : Outcome)
+    (hp : ch.status = .pending) (ho : daTpm h dbOk ch i f = .val o) (hv : o.status = .valid) :
+    dbOk = true ∧ f.pre = .ok ∧ (∃ th, ch.thumb = some th ∧ f.extraData = h.raw (keyAuth ch.token th)) ∧
+      (f.permanentIdentifiers = [] ∨ ch.value ∈ f.permanentIdentifiers) := by
+  unfold daTpm at ho
+  cases hd : doTpm h ch f with
+  | ise => simp only [hd] at ho; cases ho; exact absurd hv (noWrite_not_valid _ _ hp)
+  | nilErr => simp [hd] at ho
+  | bad e => simp only [hd] at ho; cases ho; exact absurd hv (daBad_not_valid _ _ _ hp)
+  | data p =>
+    simp only [hd] at ho
+    obtain ⟨hpre, hb, hpe⟩ := doTpm_data h ch f p hd
+    subst hpe
+    split at ho
+    · cases ho; exact absurd hv (daBad_not_valid _ _ _ hp)
+    · rename_i hpid
+      cases ho
+      refine ⟨(daFinish_valid _ _ _ hp hv).1, hpre, hb, ?_⟩
+      cases hl : f.permanentIdentifiers with
+      | nil => exact .inl rfl
+      | cons a as =>
+        right
+        rw [hl] at hpid
+        by_cases hc : (a :: as).contains ch.value = true
+        · simpa using hc
+        · exact absurd ⟨by simp, by cases hx : (a :: as).contains ch.value <;> simp_all⟩ hpid
+
+/-- **device-attest-01 as coded**: the challenge turns valid only if the payload is well-formed,
+    the format is enabled, and — `step`: the leaf chains to the configured (or Yubico) root, its
+    key signed exactly token "." thumbprint, and the certificate's serial extension is the
+    identifier; `apple`: the leaf chains to the configured (or Apple) root, the nonce extension is
+    *absent* or SHA-256(token), and UDID or serial is the identifier; `tpm`: every structural check
+    passed against the configured roots, extraData = SHA-256(token "." thumbprint), and the
+    permanent-identifier list is *empty* or contains the identifier. -/
+theorem device_attest_valid_only_if_partial (h : Hash) (dbOk : Bool) (ch : Ch) (i : DaIn) (o : Outcome)
+    (hp : ch.status = .pending) (ho : deviceAttest01Validate h dbOk ch i = .val o) (hv : o.status = .valid) :
+    dbOk = true ∧ i.authzOk = true ∧ i.jsonOk = true ∧ i.errField = false ∧ i.b64Ok = true ∧ i.emptyObj = false ∧
+      i.cborWellformed = true ∧ i.cborOk = true ∧ i.enabled = true ∧ DaAcceptCoded h ch i := by
+  unfold deviceAttest01Validate at ho
+  split at ho; · cases ho; exact absurd hv (noWrite_not_valid _ _ hp)
+  split at ho; · cases ho; exact absurd hv (noWrite_not_valid _ _ hp)
+  split at ho; · cases ho; exact absurd hv (daBad_not_valid _ _ _ hp)
+  split at ho; · cases ho; exact absurd hv (daBad_not_valid _ _ _ hp)
+  split at ho; · cases ho; exact absurd hv (daBad_not_valid _ _ _ hp)
+  split at ho; · cases ho; exact absurd hv (daBad_not_valid _ _ _ hp)
+  split at ho; · cases ho; exact absurd hv (noWrite_not_valid _ _ hp)
+  split at ho; · cases ho; exact absurd hv (daBad_not_valid _ _ _ hp)
+  rename_i h1 h2 h3 h4 h5 h6 h7 h8
+  have core : dbOk = true ∧ DaAcceptCoded h ch i := by
+    unfold daCore at ho
+    unfold DaAcceptCoded
+    cases hfmt : i.format <;> cases hfac : i.facts <;> simp only [hfmt, hfac] at ho ⊢ <;> first
+      | exact daApple_valid h dbOk ch i _ o hp ho hv
+      | exact daStep_valid dbOk ch i _ o hp ho hv
+      | exact daTpm_valid h dbOk ch i _ o hp ho hv
+      | (cases ho; exact absurd hv (daBad_not_valid _ _ _ hp))
+  refine ⟨core.1, ?_, ?_, ?_, ?_, ?_, ?_, ?_, ?_, core.2⟩ <;> simp_all
+
+/-- `step` alone meets the property's conjunct in full (identifiers are never empty: NewOrder
+    rejects an empty permanent identifier) -/
+theorem device_attest_step_full (h : Hash) (dbOk : Bool) (ch : Ch) (i : DaIn) (o : Outcome) (f : StepFacts)
+    (hp : ch.status = .pending) (hne : ch.value ≠ []) (hf : i.facts = .step f)
+    (ho : deviceAttest01Validate h dbOk ch i = .val o) (hv : o.status = .valid) : DaAccept h ch i := by
+  have := (device_attest_valid_only_if_partial h dbOk ch i o hp ho hv).2.2.2.2.2.2.2.2.2
+  unfold DaAcceptCoded at this
+  unfold DaAccept
+  rw [hf] at this ⊢
+  cases hfmt : i.format <;> simp only [hfmt] at this
+  obtain ⟨a, b, c | ⟨_, c⟩⟩ := this
+  · exact ⟨a, b, c⟩
+  · exact absurd c hne
+
+/-- the property's device-attest clause at full strength -/
+def DaFull : Prop :=
+  ∀ (h : Hash) (dbOk : Bool) (ch : Ch) (i : DaIn) (o : Outcome), ch.status = .pending → ch.value ≠ [] →
+    deviceAttest01Validate h dbOk ch i = .val o → o.status = .valid → DaAccept h ch i
+
+def wX5c : X5c := ⟨true, 2, true, true, true⟩
+def wCh : Ch := ⟨.deviceAttest01, .pending, .none, s "udid-1", s "tok", some (s "thumb"), none⟩
+def wHash : Hash := ⟨fun x => x ++ [0], fun x => x ++ [1]⟩
+def wIn (fm : AttFormat) (f : FmtFacts) : DaIn :=
+  { authzOk := true, jsonOk := true, errField := false, b64Ok := true, emptyObj := false, cborWellformed := true,
+    cborOk := true, format := fm, enabled := true, facts := f, fpNonEmpty := true, authzDbOk := true }
+
+/-- **Refutation (D14, apple half; reproduced on the real code)**: an `apple` attestation whose
+    leaf has *no nonce extension* turns the challenge valid — nothing binds it to this challenge's
+    token, let alone to the account key. -/
+theorem device_attest_valid_only_if_refuted_apple : ¬ DaFull := by
+  intro hall
+  have := hall wHash true wCh (wIn .apple (.apple ⟨wX5c, true, s "sn", s "udid-1", []⟩))
+    ⟨.valid, .none, .ok, .none, true⟩ rfl (by decide) (by decide) rfl
+  simp [DaAccept, wIn, wCh, wHash, keyAuth] at this
+
+/-- **Refutation (D14, apple, second witness; reproduced)**: even with the nonce present the
+    `apple` format binds SHA-256(token) only — the same attestation is accepted whichever account
+    key signs the request. -/
+theorem device_attest_apple_ignores_account_key (th : Option Str) :
+    deviceAttest01Validate wHash true { wCh with thumb := th }
+      (wIn .apple (.apple ⟨wX5c, true, s "sn", s "udid-1", s "tok" ++ [0]⟩)) =
+      .val ⟨.valid, .none, .ok, .none, true⟩ := by
+  cases th <;> rfl
+
+/-- **Refutation (D14, tpm half; model only — not reproduced without TPM-signed structures)**: a
+    `tpm` attestation whose AK certificate lists no permanent identifier is accepted for any
+    identifier. -/
+theorem device_attest_valid_only_if_refuted_tpm : ¬ DaFull := by
+  intro hall
+  have := hall wHash true wCh (wIn .tpm (.tpm ⟨.ok, s "tok.thumb" ++ [0], false, true, []⟩))
+    ⟨.valid, .none, .ok, .none, true⟩ rfl (by decide) (by decide) rfl
+  simp [DaAccept, wIn] at this
+
+/-- with the two gaps closed by hypothesis the clause holds: `step` always; `tpm` when the AK
+    certificate lists at least one permanent identifier; `apple` never binds the account key, for
+    it the nonce binds the token when present -/
+theorem device_attest_valid_only_if_partial_full (h : Hash) (dbOk : Bool) (ch : Ch) (i : DaIn) (o : Outcome)
+    (hp : ch.status = .pending) (hne : ch.value ≠ [])
+    (happle : ∀ f, i.facts ≠ .apple f)
+    (htpm : ∀ f, i.facts = .tpm f → f.permanentIdentifiers ≠ [])
+    (ho : deviceAttest01Validate h dbOk ch i = .val o) (hv : o.status = .valid) : DaAccept h ch i := by
+  have := (device_attest_valid_only_if_partial h dbOk ch i o hp ho hv).2.2.2.2.2.2.2.2.2
+  unfold DaAcceptCoded at this
+  unfold DaAccept
+  cases hf : i.facts with
+  | apple f => exact absurd hf (happle f)
+  | step f =>
+    rw [hf] at this
+    cases hfmt : i.format <;> simp only [hfmt] at this
+    obtain ⟨a, b, c | ⟨_, c⟩⟩ := this
+    · exact ⟨a, b, c⟩
+    · exact absurd c hne
+  | tpm f =>
+    rw [hf] at this
+    cases hfmt : i.format <;> simp only [hfmt] at this
+    obtain ⟨a, b, c | c⟩ := this
+    · exact absurd c (htpm f hf)
+    · exact ⟨a, b, c⟩
+  | none =>
+    rw [hf] at this
+    cases hfmt : i.format <;> simp only [hfmt] at this
+
+theorem device_attest_apple_nonce (h : Hash) (dbOk : Bool) (ch : Ch) (i : DaIn) (o : Outcome) (f : AppleFacts)
+    (hp : ch.status = .pending) (hf : i.facts = .apple f) (hn : f.nonce ≠ [])
+    (ho : deviceAttest01Validate h dbOk ch i = .val o) (hv : o.status = .valid) :
+    f.x5c.chainOk = true ∧ f.nonce = h.raw ch.token ∧ (f.udid = ch.value ∨ f.serial = ch.value) := by
+  have := (device_attest_valid_only_if_partial h dbOk ch i o hp ho hv).2.2.2.2.2.2.2.2.2
+  unfold DaAcceptCoded at this
+  rw [hf] at this
+  cases hfmt : i.format <;> simp only [hfmt] at this
+  obtain ⟨a, b | b, c⟩ := this
+  · exact absurd b hn
+  · exact ⟨a, b, c⟩
+
+example : deviceAttest01Validate wHash true { wCh with value := s "123" }
+    (wIn .step (.step ⟨wX5c, true, true, .rsa, fun m => m == s "tok.thumb", true, .value (s "123")⟩)) =
+    .val ⟨.valid, .none, .ok, .none, true⟩ := by decide
+
+/-- **The validator can abort (reproduced on the real code)**: a `step` attestation whose
+    leaf key is an EC key on a curve other than P-256, or whose serial-number extension parses
+    with trailing bytes, makes `doStepAttestationFormat` return `WrapError(…, nil, …)` = a nil
+    `*Error` inside a non-nil `error`; `deviceAttest01Validate` then reads `acmeError.Status`. -/
+theorem device_attest_crashes :
+    deviceAttest01Validate wHash true wCh
+      (wIn .step (.step ⟨wX5c, true, true, .ecOther, fun _ => true, true, .absent⟩)) = .crash ∧
+    deviceAttest01Validate wHash true wCh
+      (wIn .step (.step ⟨wX5c, true, true, .ecP256, fun _ => true, true, .trailing⟩)) = .crash := by
+  constructor <;> decide
+
+theorem doApple_ne_nilErr (f : AppleFacts) : doApple f ≠ .nilErr := by
+  unfold doApple
+  intro hd
+  repeat' split at hd
+  all_goals simp_all
+
+theorem doTpm_ne_nilErr (h : Hash) (ch : Ch) (f : TpmFacts) : doTpm h ch f ≠ .nilErr := by
+  unfold doTpm
+  intro hd
+  repeat' split at hd
+  all_goals simp_all
+
+theorem doStep_nilErr (ch : Ch) (f : StepFacts) (hd : doStep ch f = .nilErr) :
+    f.key = .ecOther ∨ f.serial = .trailing := by
+  unfold doStep at hd
+  repeat' split at hd
+  all_goals simp_all
+
+/-- apart from those two inputs the validator is total -/
+theorem device_attest_total_partial (h : Hash) (dbOk : Bool) (ch : Ch) (i : DaIn)
+    (hs : ∀ f, i.facts = .step f → f.key ≠ .ecOther ∧ f.serial ≠ .trailing) :
+    ∃ o, deviceAttest01Validate h dbOk ch i = .val o := by
+  unfold deviceAttest01Validate
+  repeat' split
+  all_goals first
+    | exact ⟨_, rfl⟩
+    | skip
+  unfold daCore
+  cases hfmt : i.format <;> cases hfac : i.facts <;> simp only <;> first
+    | exact ⟨_, rfl⟩
+    | skip
+  · rename_i f
+    unfold daApple
+    cases hd : doApple f with
+    | nilErr => exact absurd hd (doApple_ne_nilErr f)
+    | ise => exact ⟨_, rfl⟩
+    | bad e => exact ⟨_, rfl⟩
+    | data d => simp only; repeat' split
+                all_goals exact ⟨_, rfl⟩
+  · rename_i f
+    obtain ⟨hk, hser⟩ := hs f hfac
+    unfold daStep
+    cases hd : doStep ch f with
+    | nilErr => rcases doStep_nilErr ch f hd with h1 | h1 <;> simp_all
+    | ise => exact ⟨_, rfl⟩
+    | bad e => exact ⟨_, rfl⟩
+    | data d => simp only; split <;> exact ⟨_, rfl⟩
+  · rename_i f
+    unfold daTpm
+    cases hd : doTpm h ch f with
+    | nilErr => exact absurd hd (doTpm_ne_nilErr h ch f)
+    | ise => exact ⟨_, rfl⟩
+    | bad e => exact ⟨_, rfl⟩
+    | data d => simp only; split <;> exact ⟨_, rfl⟩
+
+/-! ## 9. the dispatcher: nothing else ever turns a challenge valid -/
+
+/-- `Challenge.Validate` does nothing to a challenge that is not pending, and a pending challenge
+    of a modelled type turns valid only through its own validator's accepting condition. -/
+theorem validate_valid_only_if (h : Hash) (cfg : Cfg) (dbOk : Bool) (ch : Ch) (w : World) (o : Outcome)
+    (hp : ch.status = .pending) (hv : validate h cfg dbOk ch w = .done o) (hval : o.status = .valid) :
+    dbOk = true ∧
+    ((ch.typ = .http01 ∧ ∃ r, w = .http r ∧ HttpAccept ch r) ∨
+     (ch.typ = .dns01 ∧ ∃ r, w = .txt r ∧ DnsAccept h ch r) ∨
+     (ch.typ = .tlsalpn01 ∧ ∃ r, w = .tls r ∧ TlsAccept h ch r) ∨
+     (ch.typ = .deviceAttest01 ∧ ∃ i, w = .attest i ∧ DaAcceptCoded h ch i)) := by
+  unfold validate at hv
+  simp only [hp, ne_eq, not_true_eq_false, if_false] at hv
+  cases htyp : ch.typ with
+  | http01 =>
+    cases w with
+    | http r =>
+      simp only [htyp] at hv
+      injection hv with hv; subst hv
+      have := (http01_valid_only_if cfg dbOk ch r hp).1 hval
+      exact ⟨this.1, .inl ⟨rfl, r, rfl, this.2⟩⟩
+    | _ => simp [htyp] at hv
+  | dns01 =>
+    cases w with
+    | txt r =>
+      simp only [htyp] at hv
+      injection hv with hv; subst hv
+      have := (dns01_valid_only_if h cfg dbOk ch r hp).1 hval
+      exact ⟨this.1, .inr (.inl ⟨rfl, r, rfl, this.2⟩)⟩
+    | _ => simp [htyp] at hv
+  | tlsalpn01 =>
+    cases w with
+    | tls r =>
+      simp only [htyp] at hv
+      cases ho : tlsalpn01Validate h cfg dbOk ch r with
+      | crash => simp [ho] at hv
+      | val o' =>
+        simp only [ho] at hv
+        injection hv with hv; subst hv
+        have := (tlsalpn01_valid_only_if h cfg dbOk ch r o' hp ho).1 hval
+        exact ⟨this.1, .inr (.inr (.inl ⟨rfl, r, rfl, this.2⟩))⟩
+    | _ => simp [htyp] at hv
+  | deviceAttest01 =>
+    cases w with
+    | attest i =>
+      simp only [htyp] at hv
+      cases ho : deviceAttest01Validate h dbOk ch i with
+      | crash => simp [ho] at hv
+      | val o' =>
+        simp only [ho] at hv
+        injection hv with hv; subst hv
+        have := device_attest_valid_only_if_partial h dbOk ch i o' hp ho hval
+        exact ⟨this.1, .inr (.inr (.inr ⟨rfl, i, rfl, this.2.2.2.2.2.2.2.2.2⟩))⟩
+    | _ => simp [htyp] at hv
+  | wireOidc01 => cases w <;> simp [htyp] at hv
+  | wireDpop01 => cases w <;> simp [htyp] at hv
+  | unknown =>
+    have : o = noWrite ch .none := by cases w <;> simp [htyp] at hv <;> exact hv.symm
+    subst this
+    exact absurd hval (noWrite_not_valid _ _ hp)
+
+theorem validate_not_pending_noop (h : Hash) (cfg : Cfg) (dbOk : Bool) (ch : Ch) (w : World)
+    (hp : ch.status ≠ .pending) :
+    validate h cfg dbOk ch w = .done ⟨ch.status, ch.err, .ok, .none, false⟩ := by
+  unfold validate; simp [hp]
+
+/-- **never valid otherwise**: for a pending challenge of a modelled type, unless the validator's
+    accepting condition holds the stored status afterwards is pending or invalid, and the
+    authorization that owns the challenge does not become valid. -/
+theorem never_valid_otherwise (h : Hash) (cfg : Cfg) (dbOk : Bool) (ch : Ch) (w : World) (o : Outcome)
+    (hp : ch.status = .pending) (hv : validate h cfg dbOk ch w = .done o)
+    (hn : ¬ ((∃ r, w = .http r ∧ HttpAccept ch r) ∨ (∃ r, w = .txt r ∧ DnsAccept h ch r) ∨
+             (∃ r, w = .tls r ∧ TlsAccept h ch r) ∨ (∃ i, w = .attest i ∧ DaAcceptCoded h ch i))) :
+    o.status ≠ .valid ∧ authzAfter o = .pending := by
+  have : o.status ≠ .valid := by
+    intro hval
+    obtain ⟨_, hc⟩ := validate_valid_only_if h cfg dbOk ch w o hp hv hval
+    apply hn
+    rcases hc with ⟨_, r, a, b⟩ | ⟨_, r, a, b⟩ | ⟨_, r, a, b⟩ | ⟨_, r, a, b⟩
+    · exact .inl ⟨r, a, b⟩
+    · exact .inr (.inl ⟨r, a, b⟩)
+    · exact .inr (.inr (.inl ⟨r, a, b⟩))
+    · exact .inr (.inr (.inr ⟨r, a, b⟩))
+  exact ⟨this, by unfold authzAfter; simp [this]⟩
 
 end Verif.AcmeChallenge
